@@ -34,8 +34,9 @@ Bound(ev) ==
   /\ ev.parsed[3] = C!YZ(KindName(ev.kind), ev.par, ev.L)
   /\ ev.parsed[4] = C!XZ(KindName(ev.kind), ev.par, ev.L, ev.M)
 
-\* as in C04: when the exact Rlat of the report is within 1e-9 degree of an NL transition latitude
-\* (only 87.0 deg even), a float decoder may legitimately take the other NL: no distance required
+\* as in C04: a report whose exact Rlat is within 1e-9 degree of (but not on) an NL transition
+\* latitude would be a genuine float tie; there is no such point on the 2^17 grid, so Tight is
+\* always FALSE (the former exemption at exactly 87.0 deg hid a genuine defect of nl(), now repaired)
 WhyOut(r, tight) ==
   CASE r.o = "none" -> ""
     [] r.o = "some" -> IF r.err <= TolMM \/ tight THEN "" ELSE "wrong_position"
